@@ -129,12 +129,15 @@ Definition st_add_with_id (s : stream) (id : sid) (f : fields) : option stream :
   else Some {| s_entries := s_entries s ++ [(id, f)]; s_last := id; s_ams := fst id; s_aseq := snd id;
                s_len := s_len s + 1; s_groups := s_groups s |}.
 
+(** AtomicUsize::fetch_sub: wraps on underflow *)
+Definition usub (a b : Z) : Z := if a <? b then a - b + two64 else a - b.
+
 (** Stream::trim_by_count *)
 Definition st_trim (s : stream) (maxlen : Z) : Z * stream :=
   if len (s_entries s) <=? maxlen then (0, s)
   else let n := len (s_entries s) - maxlen in
        (n, {| s_entries := zskipn n (s_entries s); s_last := s_last s; s_ams := s_ams s; s_aseq := s_aseq s;
-              s_len := as_u64 (s_len s - n); s_groups := s_groups s |}).
+              s_len := usub (s_len s) n; s_groups := s_groups s |}).
 
 Fixpoint sid_mem (x : sid) (l : list sid) : bool :=
   match l with [] => false | y :: r => sid_eqb x y || sid_mem x r end.
@@ -145,7 +148,7 @@ Definition st_delete (s : stream) (ids : list sid) : Z * stream :=
   let n := len (s_entries s) - len kept in
   if 0 <? n then
     (n, {| s_entries := kept; s_last := s_last s; s_ams := s_ams s; s_aseq := s_aseq s;
-           s_len := as_u64 (s_len s - n); s_groups := s_groups s |})
+           s_len := usub (s_len s) n; s_groups := s_groups s |})
   else (0, s).
 
 Definition last_entry_id (s : stream) : option sid :=
